@@ -169,7 +169,7 @@ Proof.
   rewrite <- (es_pos _ _ S), <- (es_rq _ _ S), <- (es_aq _ _ S).
   destruct (aget id (e_pos e)) as [o|]; [|reflexivity].
   destruct (negb (po_status o =? ST_ACCEPTED)); [reflexivity|]. cbv zeta.
-  destruct (po_purchaser o =? BAD_ADDR); [reflexivity|].
+  destruct (negb (addr_parses (po_purchaser o))); [reflexivity|].
   pose proof (mint_and_lock_sim b _ _ (po_purchaser o) (po_denom o, po_amount o)
                 (with_pos_sim e e' (aset id (set_po_status o ST_COMPLETED 0 false) (e_pos e))
                               (e_raisedq e) (e_acceptedq e) S)) as M.
